@@ -44,6 +44,18 @@ template<class T> static void unary(T x, const char* tn)
 	if (glm::isnan(x) != (x != x)) tfail("isnan" + sfx, "value", in, str(x != x), str(glm::isnan(x)));
 	bool inf = (x == std::numeric_limits<T>::infinity() || x == -std::numeric_limits<T>::infinity()); if (glm::isinf(x) != inf) tfail("isinf" + sfx, "value", in, str(inf), str(glm::isinf(x)));
 }
+// the 4-component overloads (SIMD code in the intrinsics builds, where vec<4, T> is an aligned type) against the scalar overloads lane by lane;
+// the scalar overloads are compared with libm above.  Value comparison (sign of zero free, NaN = NaN); fract/roundEven on finite lanes only, as in unary().
+template<class T> static void unary_v4(T a, T b, T c, T d, const char* tn)
+{
+	std::string sfx = std::string("<vec4 ") + tn + ">"; glm::vec<4, T> v(a, b, c, d);
+	auto chk = [&](const char* fn, glm::vec<4, T> const& r, T (*sc)(T), bool finite_only) { for (int i = 0; i < 4; ++i) { if (finite_only && !std::isfinite(v[i])) continue; T w = sc(v[i]); if (!samev(r[i], w)) { tfail(fn + sfx, "lane differs from the scalar overload", fs(v[i]) + " (lane " + str(i) + ")", fs(w), fs(r[i])); break; } } };
+	chk("floor", glm::floor(v), [](T x) { return glm::floor(x); }, false); chk("ceil", glm::ceil(v), [](T x) { return glm::ceil(x); }, false);
+	chk("trunc", glm::trunc(v), [](T x) { return glm::trunc(x); }, false); chk("round", glm::round(v), [](T x) { return glm::round(x); }, false);
+	chk("roundEven", glm::roundEven(v), [](T x) { return glm::roundEven(x); }, true); chk("fract", glm::fract(v), [](T x) { return glm::fract(x); }, true);
+	chk("abs", glm::abs(v), [](T x) { return glm::abs(x); }, false); chk("sign", glm::sign(v), [](T x) { return glm::sign(x); }, false);
+	chk("mod1", glm::mod(v, (T)1), [](T x) { return glm::mod(x, (T)1); }, true);
+}
 static void bitcasts(uint32_t u)
 {
 	float f = glm::uintBitsToFloat(u); if (glm::floatBitsToUint(f) != u) tfail("floatBitsToUint", "lossless", hex(u), hex(u), hex(glm::floatBitsToUint(f)));
@@ -115,10 +127,13 @@ int main(int argc, char** argv)
 	constants();
 	// unary functions over the float patterns
 	{ uint64_t stride = thorough ? 1 : 1531, off = thorough ? 0 : r.next() % 1531; std::vector<std::thread> th; std::atomic<long> cnt(0);
-	  for (int t = 0; t < 16; ++t) th.emplace_back([t, stride, off, &cnt]() { long c = 0; for (uint64_t u = off + (uint64_t)t * stride; u < (1ull << 32); u += 16 * stride) { unary<float>(u2f((uint32_t)u), "float"); bitcasts((uint32_t)u); ++c; } cnt += c; });
+	  for (int t = 0; t < 16; ++t) th.emplace_back([t, stride, off, &cnt]() { long c = 0; for (uint64_t u = off + (uint64_t)t * stride; u < (1ull << 32); u += 16 * stride) { float fu = u2f((uint32_t)u); unary<float>(fu, "float"); unary_v4<float>(fu, -fu, u2f((uint32_t)u + 0x00800000u), u2f(~(uint32_t)u), "float"); bitcasts((uint32_t)u); ++c; } cnt += c; });
 	  for (auto& x : th) x.join(); count(thorough ? "unary functions over all 2^32 float patterns" : "unary functions over every 1531st float pattern", cnt.load()); }
 	// the special-value lattice for unary functions (float and double) and its n-th powers for the n-ary ones
 	auto lf = lattice<float>(); auto ld = lattice<double>();
+	for (size_t i = 0; i < lf.size(); ++i) { size_t m = lf.size(); unary_v4<float>(lf[i], lf[(i + 1) % m], lf[(i + 2) % m], lf[(i + 3) % m], "float"); unary_v4<double>(ld[i], ld[(i + 1) % m], ld[(i + 2) % m], ld[(i + 3) % m], "double");
+	  for (float k : { 0.5f, 1.5f, 2.5f, 3.5f, 1000.5f, 8388607.5f }) { unary_v4<float>(k, -k, std::nextafter(k, 0.f), -std::nextafter(k, 1e30f), "float"); unary_v4<float>(-std::nextafter(k, 0.f), std::nextafter(k, 1e30f), lf[i], -k, "float"); }
+	  for (double k : { 0.5, 1.5, 2.5, 3.5, 1000.5, 4503599627370495.5, 2147483647.5 }) { unary_v4<double>(k, -k, std::nextafter(k, 0.0), -std::nextafter(k, 1e300), "double"); unary_v4<double>(-std::nextafter(k, 0.0), std::nextafter(k, 1e300), ld[i], -k, "double"); } }
 	for (float x : lf) { unary<float>(x, "float"); for (float k : { 0.5f, 1.5f, 2.5f, 3.5f, 1000.5f, 8388607.5f }) { unary<float>(k, "float"); unary<float>(-k, "float"); unary<float>(std::nextafter(k, 0.f), "float"); unary<float>(std::nextafter(k, 1e30f), "float"); } }
 	for (double x : ld) { unary<double>(x, "double"); for (double k : { 0.5, 1.5, 2.5, 3.5, 1000.5, 4503599627370495.5, 2147483647.5 }) { unary<double>(k, "double"); unary<double>(-k, "double"); unary<double>(std::nextafter(k, 0.0), "double"); unary<double>(std::nextafter(k, 1e300), "double"); } }
 	long n = 0; int S = thorough ? 1 : 3;
